@@ -89,6 +89,21 @@ package option
 //
 //@ schema end
 //
+// Two operand values followed by suppliers: a failure of x1 must stay a failure through the
+// step that consumes a successful x2, so that no later supplier is invoked.
+//
+//@ schema N=3..9
+//
+//@ lemma applicative{N}ValuesThenSuppliers[<<i=1..N|, |A$i>>, R any](f func(<<i=1..N|, |A$i>>) R, x1 fp.Option[A1], x2 fp.Option[A2]<<i=3..N||, s$i func() fp.Option[A$i]>>)
+//@   prop C01 C02 C14
+//@   ensures EqT(Applicative{N}(f).ApOption(x1).ApOption(x2)<<i=3..N||.ApOptionFunc(s$i)>>, FlatMap(x1, func(a1 A1) fp.Option[R] { return FlatMap(x2, func(a2 A2) fp.Option[R] { return <<i=3..N||FlatMap(s$i(), func(a$i A$i) fp.Option[R] { return >>Some(f(<<i=1..N|, |a$i>>))<<i=3..N|| })>> }) }))
+//
+//@ lemma chain{N}ValuesThenSuppliers[<<i=1..N|, |A$i>>, R any](f func(<<i=1..N|, |A$i>>) R, x1 fp.Option[A1], x2 fp.Option[A2]<<i=3..N||, s$i func() fp.Option[A$i]>>)
+//@   prop C01 C02 C14
+//@   ensures EqT(Chain{N}(f).ApOption(x1).ApOption(x2)<<i=3..N||.ApOptionFunc(s$i)>>, FlatMap(x1, func(a1 A1) fp.Option[R] { return FlatMap(x2, func(a2 A2) fp.Option[R] { return <<i=3..N||FlatMap(s$i(), func(a$i A$i) fp.Option[R] { return >>Some(f(<<i=1..N|, |a$i>>))<<i=3..N|| })>> }) }))
+//
+//@ schema end
+//
 // The same chains against the library's own LiftA{N} (which monad.contracts ties to the nested FlatMap).
 //
 //@ schema N=2..9
